@@ -74,6 +74,11 @@ func (tc tcase) routes() []rx.R {
 	case "nonterminal-then-never":
 		// an earlier route matches at once and is non-terminal; matching then continues with an undecided route
 		return []rx.R{{Handle: []map[string]any{rx.H("verif_take", "id", "NONTERMINAL", "k", 0)}}, {Match: []map[string]any{never}, Handle: term}}
+	case "consume-then-never":
+		// a non-terminal handler consumes part of the prefetched bytes, then matching continues with an undecided
+		// route while the client floods: the bytes held for matching still obey the limit
+		return []rx.R{{Match: []map[string]any{rx.M("verif_need", &rx.Need{N: 4000, Pos: 0, Val: 'f'})}, Handle: []map[string]any{rx.H("verif_take", "id", "NONTERMINAL", "k", 3000)}},
+			{Match: []map[string]any{never}, Handle: term}}
 	case "subroute-fallthrough-then-slow":
 		// the nested list is decided "no" on bytes that are already buffered (no prefetch); the handler after the
 		// subroute then reads data that arrives after the matching deadline
@@ -103,12 +108,15 @@ func genCase(t *rapid.T, thorough bool) tcase {
 		Phase: rapid.IntRange(-1, 9).Draw(t, "phase")}
 	tc.Schedule = []string{"silent", "trickle", "flood", "silent", "trickle"}[rapid.IntRange(0, 4).Draw(t, "schedule")]
 	tc.Every = time.Duration(rapid.IntRange(2, 40).Draw(t, "everyMs")) * time.Millisecond
-	kinds := []string{"never", "never-peek", "no+never", "http", "err", "err0+next", "subroute", "match-then-slow", "nonterminal-then-never", "subroute-fallthrough-then-slow"}
+	kinds := []string{"never", "never-peek", "no+never", "http", "err", "err0+next", "subroute", "match-then-slow", "nonterminal-then-never", "subroute-fallthrough-then-slow", "consume-then-never"}
 	tc.Routes = kinds[rapid.IntRange(0, len(kinds)-1).Draw(t, "routes")]
 	tc.InnerTimeout = time.Duration(rapid.IntRange(150, maxT).Draw(t, "innerMs")) * time.Millisecond
 	tc.ErrAfter = rapid.IntRange(0, 40).Draw(t, "errAfter")
 	if tc.Routes == "match-then-slow" || tc.Routes == "subroute-fallthrough-then-slow" {
 		tc.Schedule = "match-then-late"
+	}
+	if tc.Routes == "consume-then-never" {
+		tc.Schedule, tc.UDP = "flood", false
 	}
 	if tc.Routes == "err" && tc.Schedule == "silent" && tc.ErrAfter > 0 {
 		tc.Schedule = "trickle"
@@ -318,7 +326,7 @@ func judge(tc tcase, o outcome) (string, string) {
 	if o.pulled > limit && tc.Routes != "err" {
 		return "buffer-limit", fmt.Sprintf("matching buffered %d bytes, the limit is %d + one chunk of %d\n  %s", o.pulled, layer4.MaxMatchingBytes, layer4.VerifPrefetchChunkSize, desc)
 	}
-	if tc.Routes == "nonterminal-then-never" {
+	if tc.Routes == "nonterminal-then-never" || tc.Routes == "consume-then-never" {
 		handlerRan = false
 		for _, e := range o.events {
 			if e.ID != "NONTERMINAL" {
